@@ -65,7 +65,11 @@ func c12PerMetric(proto Protocol, kind int, ntags int) {
 	ts := verifrt.Int64("timestamp")
 	verifrt.Assume(ts >= 0)
 	// the same name and tags may already have been used for another kind of metric
-	switch verifrt.Choose("prior-use", 4) {
+	prior := 0
+	if ntags <= 1 {
+		prior = verifrt.Choose("prior-use", 4)
+	}
+	switch prior {
 	case 1:
 		r.AllocateCounter(name, tags)
 	case 2:
@@ -151,7 +155,7 @@ func c12Envelope(proto Protocol) {
 		}
 	}
 	r, addr := vNew(proto, 4, 65000, common)
-	n := []int{1, 14, 15, 127, 128}[verifrt.Choose("n", 5)]
+	n := []int{1, 15, 128}[verifrt.Choose("n", 3)] // the first lengths whose list header is 1, 2 and 3 bytes long
 	seq := verifrt.Int32("seq")
 	verifrt.Assume(verifrt.And(seq >= 0, seq < math.MaxInt32))
 	verifrt.Assert("c12.close-ok", r.Close() == nil) // stops the goroutines; flush() is driven directly
